@@ -352,7 +352,8 @@ Proof.
     exists s2; split; auto. split; [|split].
     + eapply frame_eq. eapply frame_trans; eauto. all: lia.
     + congruence.
-    + intro j. rewrite G2, G1. fin0.
+    + intro j. rewrite G2, G1. bdestr.
+      all: try (replace (j - i) with (S (j - S i)) by lia; reflexivity); try (subst; rewrite Nat.sub_diag; reflexivity).
 Qed.
 
 Lemma fill_range_ext_ok k v : forall i (s : st), i + k <= length (cur s) ->
@@ -409,7 +410,8 @@ Proof.
     exists s2; split; auto. split; [|split].
     + eapply frame_eq. eapply frame_trans; eauto. all: lia.
     + congruence.
-    + intro j. rewrite G2, G1. fin0.
+    + intro j. rewrite G2, G1. bdestr.
+      all: try (replace (j - i) with (S (j - S i)) by lia; reflexivity); try (subst; rewrite Nat.sub_diag; reflexivity).
 Qed.
 
 Lemma assign_fill_ok k v : forall i (s : st), i + k <= length (cur s) ->
